@@ -17,9 +17,10 @@ Clauses
                      {distinct completed inputs} U {all-tied}, resp. the starters' consensuses  (private method; the
                      check is skipped silently if it cannot be called)
   C09.terminates     no answer within 90 s (case run in a forked child, see C08.guarded)
-site = configuration ("BioConsert no starters", "BioCo", "BioConsert with starters [...]"); for C09.prop / C09.select
-the site carries the suffix "; departure rows mis-numbered" when C09.departure.set failed for the same input, so that
-failures caused by mis-numbered departures can be told from failures caused by a wrong selection of the best departure.
+site = "BioConsert no starters" or "BioConsert with starters" (the configuration - BioCo, [Copeland], ... - is in the
+detail; a finer site would only multiply the signatures of the same defect); for C09.prop / C09.select the site carries
+the suffix "; departure rows mis-numbered" when C09.departure.set failed for the same input, so that failures caused
+by mis-numbered departures can be told from failures caused by a wrong selection of the best departure.
 Documented refusals (a starter that does not handle an incomplete dataset under the scheme) are skipped.
 """
 import random
@@ -105,8 +106,7 @@ def _chooser(which):
 
 
 def _site(config):
-    return "BioConsert no starters" if config == "none" else "BioCo" if config == "BioCo" else \
-        "BioConsert with starters " + config
+    return "BioConsert no starters" if config == "none" else "BioConsert with starters"
 
 
 def _starter_names(config):
@@ -233,7 +233,8 @@ def check_inner(case):
                 except Exception as e:
                     if not complete and K.documented_refusal(e):
                         continue
-                    fail("C09.prop", site + " crash", exception="%s: %s" % (type(e).__name__, e), scheme=scheme)
+                    fail("C09.prop", site + " crash", exception="%s: %s" % (type(e).__name__, e), scheme=scheme,
+                         config=config)
                     continue
                 got = [A.ranking_to_raw(r) for r in cons.consensus_rankings]
                 if not got or any(sorted(map(repr, [x for b in r for x in b])) != sorted(map(repr, universe))
@@ -243,13 +244,13 @@ def check_inner(case):
                 got_scores = [score(r) for r in got]
                 if max(got_scores) - min(got_scores) > EPS:
                     fail("C09.select", site + suffix, returned=[show(r) for r in got], oracle_scores=got_scores,
-                         scheme=scheme, return_at_most_one_ranking=one)
+                         scheme=scheme, return_at_most_one_ranking=one, config=config)
                 worst = max(range(len(got)), key=lambda i: got_scores[i])
                 if got_scores[worst] > best_start[0] + EPS:
                     fail("C09.prop", site + suffix, returned=show(got[worst]), oracle_score=got_scores[worst],
                          better_start=best_start[1], start_ranking=show(best_start[2]), start_score=best_start[0],
                          all_start_scores=[(lab, s) for s, lab, _ in start_scores], scheme=scheme,
-                         return_at_most_one_ranking=one, reported_score=_reported(cons))
+                         return_at_most_one_ranking=one, reported_score=_reported(cons), config=config)
     if len(universe) < 2:
         nk = 0
     return {"fails": fails, "key": None, "nkeys": nk, "evals": evals,
